@@ -17,7 +17,7 @@ Decided clauses:
     `is_dirty()` must equal "something was written and the output does not end with a line break".
 """
 from .. import facts as F
-from ..absint import (Interp, TOP, UNIT, TRUE, FALSE, U8_ANY, OPTION, none, some, const_int, mk_int, int_singleton, Inconclusive)
+from ..absint import (place_index, Interp, TOP, UNIT, TRUE, FALSE, U8_ANY, OPTION, none, some, const_int, mk_int, int_singleton, Inconclusive)
 from .common import (EventRule, cli_entry_store, ret_is_err, ret_is_ok, lib_crate, SINKERR, outcomes_for_type,
                      strip_crate)
 from . import C14 as base
@@ -404,8 +404,11 @@ class DirtyRule:
         v = w.store.get((depth, place['l']), TOP)
         if v[0] != 'tstr':
             return None
-        idx = [e for e in place['p'] if e['k'] == 'index'][0]['l']
-        iv = w.store.get((depth, idx), TOP)
+        iv = place_index(w, depth, place)
+        if iv is None:
+            return None
+        if iv[0] == 'fromend':
+            iv = ('symoff', 'len', -iv[1])
         tail = v[2]
         if iv == ('symoff', 'len', -1) and tail[0] == 'N':
             return [(w, self._cls(tail[3]))]
